@@ -26,6 +26,7 @@ import (
 //	minigo    {id, prog, forms}              a program of the mini language of MiniGo.tla, written in one or more source forms
 //	pkginit   {id, imps, vars, inits, forms} a program of several packages (PkgInit.tla): go.mod + one directory per package
 //	godata    {id, ops, capk}                a straight-line program over composite data (GoData.tla): the operations are Go statements
+//	goiface   {id, ops}                      a straight-line program over interface values (GoIface.tla): the operations are Go statements
 //
 // The driver only writes Go source for a case (string templates), builds and runs it with the public
 // API and logs what was printed / returned.  No expected value is computed here.
@@ -1327,6 +1328,144 @@ func gdRun(raw []byte) []any {
 	return []any{o}
 }
 
+// ---------------------------------------------------------------- goiface: dynamic types of interface values (GoIface.tla)
+
+// A case is a straight-line program: the fixed declarations of GoIface.tla, then the operations (Go statements, written
+// by the specification's alphabet) in order; the observable state is printed before the first and after every operation
+// by a fixed epilogue: the interface variables e and g through a type switch (no fmt), then the typed variables.
+type giCase struct {
+	ID  int      `json:"id"`
+	Ops []string `json:"ops"`
+}
+
+const giPreamble = `package main
+
+type I int
+type S string
+type T struct{ A int }
+
+func shows(x string) {
+	print(len(x), " ")
+	for j := 0; j < len(x); j++ {
+		print(int(x[j]), " ")
+	}
+}
+
+func show(x interface{}) {
+	switch v := x.(type) {
+	case nil:
+		print(0, " ")
+	case int:
+		print(1, " ", v, " ")
+	case string:
+		print(2, " ")
+		shows(v)
+	case bool:
+		print(3, " ", v, " ")
+	case I:
+		print(4, " ", int(v), " ")
+	case S:
+		print(5, " ")
+		shows(string(v))
+	case *int:
+		if v == nil {
+			print(6, " ", true, " ")
+		} else {
+			print(6, " ", false, " ", *v, " ")
+		}
+	case []int:
+		print(7, " ", v == nil, " ", len(v), " ")
+	case T:
+		print(8, " ", v.A, " ")
+	case float64:
+		print(9, " ", int(v), " ")
+	case int32:
+		print(10, " ", int(v), " ")
+	default:
+		print(99, " ")
+	}
+}
+
+func main() {
+	var e interface{}
+	var g interface{} = 1
+	i := 2
+	n := I(3)
+	s := ` + "`a`" + `
+	z := S(` + "`b`" + `)
+	b := true
+	var p *int
+	var l []int
+	t := T{4}
+	k := 0
+	ok := false
+`
+
+const giShow = `	show(e)
+	show(g)
+	print(i, " ", int(n), " ")
+	shows(s)
+	shows(string(z))
+	print(b, " ")
+	if p == nil {
+		print(true, " ")
+	} else {
+		print(false, " ", *p, " ")
+	}
+	print(l == nil, " ", len(l), " ", t.A, " ", k, " ", ok, " ")
+	println()
+`
+
+func giSource(c giCase) string {
+	var b strings.Builder
+	b.WriteString(giPreamble)
+	b.WriteString(giShow)
+	for _, op := range c.Ops {
+		b.WriteString("\t" + op + "\n")
+		b.WriteString(giShow)
+	}
+	b.WriteString("}\n")
+	return b.String()
+}
+
+// giRun logs the printed lines as sequences of integers (true = 1, false = 0; -999 for any other value), the outcome
+// and the message of the panic as bytes.
+func giRun(raw []byte) []any {
+	var c giCase
+	o := map[string]any{}
+	if err := json.Unmarshal(raw, &c); err != nil {
+		return []any{map[string]any{"id": 0, "fam": "goiface", "ops": []any{}, "outcome": "badcase", "out": []any{}, "msg": []int{}}}
+	}
+	_ = json.Unmarshal(raw, &o) // echo every field of the case
+	src := giSource(c)
+	res := runFilesLim(scriggo.Files{"main.go": []byte(src)}, 10*time.Second, 1000)
+	out := [][]int{}
+	for _, l := range res.Lines {
+		line := []int{}
+		for _, v := range l {
+			switch x := v.(type) {
+			case int:
+				line = append(line, x)
+			case bool:
+				if x {
+					line = append(line, 1)
+				} else {
+					line = append(line, 0)
+				}
+			default:
+				line = append(line, -999)
+			}
+		}
+		out = append(out, line)
+	}
+	o["outcome"], o["out"], o["msg"] = res.Outcome, out, drv.IntsS(res.Msg)
+	if *flagKeepSrc {
+		o["src"] = src
+		o["raw"] = rawText(res)
+	}
+	return []any{o}
+}
+
 // ---------------------------------------------------------------- pkginit
 
 type pkgRef struct {
@@ -1533,6 +1672,8 @@ func main() {
 				jobs = append(jobs, func() []any { return pkgRun(raw) })
 			case "godata":
 				jobs = append(jobs, func() []any { return gdRun(raw) })
+			case "goiface":
+				jobs = append(jobs, func() []any { return giRun(raw) })
 			case "initorder":
 				var c initCase
 				if err := json.Unmarshal(raw, &c); err != nil {
